@@ -108,7 +108,7 @@ fn trig_nonascii_under_nested_replace(case: &Value, _clause: &str, _d: &str) -> 
   let spec = spec_of(case);
   spec.contains(&|s| match s {
     Spec::Replace { inner, ops } if !ops.is_empty() => {
-      !inner.model_text().is_ascii()
+      (has_non_ascii_ingredient(inner) || ops.iter().any(|o| !o.content.is_ascii()))
         && inner.contains(&|i| match i {
           Spec::Replace { ops, .. } => !ops.is_empty(),
           Spec::SourceMap { .. } | Spec::Custom { map: Some(_), .. } => true,
@@ -126,14 +126,9 @@ fn trig_nonascii_under_nested_replace(case: &Value, _clause: &str, _d: &str) -> 
 /// and attributes the text differently from the first stream.
 fn trig_nonascii_cached_replay(case: &Value, clause: &str, _d: &str) -> bool {
   let spec = spec_of(case);
-  // (a leaf's text, not the output: a replacement may delete the non-ASCII part)
-  let non_ascii_leaf = spec.contains(&|s| match s {
-    crate::spec::Spec::Concat { .. }
-    | crate::spec::Spec::Replace { .. }
-    | crate::spec::Spec::Cached { .. }
-    | crate::spec::Spec::Boxed { .. } => false,
-    leaf => !leaf.model_text().is_ascii(),
-  });
+  // (a leaf's text or a replacement's content, not the output: a replacement
+  // may delete the non-ASCII part again)
+  let non_ascii_leaf = has_non_ascii_ingredient(&spec);
   if !non_ascii_leaf || !spec.contains(&|s| matches!(s, crate::spec::Spec::Cached { .. })) {
     return false;
   }
@@ -167,6 +162,16 @@ fn trig_cached_under_replace(case: &Value, clause: &str, _d: &str) -> bool {
   c["spec"] = spec.without_cached_under_replace().to_json();
   let obs = crate::worker::eval(&prop, &c);
   !obs.has_clause(clause) && obs.inconclusive.is_empty()
+}
+
+/// Some leaf text or replacement content of the tree is not ASCII.
+pub fn has_non_ascii_ingredient(spec: &crate::spec::Spec) -> bool {
+  use crate::spec::Spec;
+  spec.contains(&|s| match s {
+    Spec::Concat { .. } | Spec::Cached { .. } | Spec::Boxed { .. } => false,
+    Spec::Replace { ops, .. } => ops.iter().any(|o| !o.content.is_ascii()),
+    leaf => !leaf.model_text().is_ascii(),
+  })
 }
 
 pub fn spec_of(case: &Value) -> crate::spec::Spec {
